@@ -82,6 +82,8 @@ var errnosFor = map[string][]syscall.Errno{
 	"getdents64":      {syscall.EIO},
 }
 
+var c15Counter int
+
 type c15Case struct {
 	Default uint      `json:"default"`
 	Pre     []preUser `json:"pre"`
@@ -92,7 +94,11 @@ func genC15(t *rapid.T) c15Case {
 	c := c15Case{Default: uint(rapid.IntRange(1, 2).Draw(t, "default"))}
 	aux, cls := genAuxFor(t, "aux")
 	c.Pre = []preUser{{Name: "root", PW: "rootpw", Admin: true, PID: 1}, {Name: "alice", PW: "old-password", Admin: rapid.Bool().Draw(t, "aadm"), PID: uint(rapid.IntRange(1, 2).Draw(t, "apid")), Aux: aux, AuxCls: cls}}
-	kind := rapid.SampledFrom([]string{"add", "update", "setadmin", "remove", "add", "update", "init"}).Draw(t, "op")
+	// every operation kind is covered in turn (kinds x shards x cases), not left to chance
+	kinds := []string{"add", "update", "setadmin", "remove", "init", "update", "add", "setadmin"}
+	kind := kinds[(vlib.Shard()+c15Counter*vlib.Shards())%len(kinds)]
+	c15Counter++
+	_ = rapid.Just(0).Draw(t, "kind:"+kind)
 	c.Op = Op{Kind: kind, User: "alice", PW: "new-password", Admin: rapid.Bool().Draw(t, "admin")}
 	switch kind {
 	case "add":
